@@ -35,6 +35,17 @@ pub fn directed() -> Vec<(String, String)> {
         "functie (", "functie(1)", "functie f(", "functie f(a,", "als", "als ja", "als ja {", "zolang", "zolang ja {", "stel", "stel x", "stel x =",
         "(", ")", "((", "[", "[1,", "{", "}", "1 +", "+ 1", "1 + + 2", "!", "-", "a.b", "1 ^ 2", "&", "|", "1 & 2", "№", "\"abc", "\"abc\\",
         "// alleen commentaar", "", " ", "\n\n", ";", ";;", ",",
+        // where a statement ends, what a suffix attaches to, separators that are optional or missing
+        "functie f(p) { p }(21)", "functie(p) { p }(21)", "stel x = functie(p) { p }(21); x", "1 + functie(p) { p }(2)",
+        "functie f() { 1 }\n(2)", "functie f() { 1 };(2)", "als ja { 1 } anders { 2 }(3)", "als ja { 1 }\n[2]", "zolang nee { }\n-1",
+        "{ 1 }\n(2)", "{ 1 }[0]", "stel a = [1,2]\n[0]", "stel a = 1\n-1", "stel a = 1\n(2)", "stel a = 1; a\n(1)", "[1][0][0]",
+        "functie f(x) { f } f(1)(2)", "functie f(x) { [x] } f(1)[0]", "stel a = [print]; a[0](1)", "stel a = [[1]]; a[0][0]",
+        "functie f(x) { x } (f)(1)", "stel a = [1]; (a)[0]", "\"ab\"[0]", "[1,2][1]", "stel a = [1]; -a[0]", "functie f(x) { ja } !f(1)", "functie f(x) { x } -f(1) * 2",
+        "stel a = 1; stel b = 2; a = b = 3", "stel a = 0; 1 + (a = 2)",
+        "als ja { 1 } anders als nee { 2 } anders als ja { 3 } anders { 4 }", "als ja { als nee { 1 } anders { 2 } }", "als ja { als nee { 1 } } anders { 2 }", "als ja { } anders { }",
+        "functie f(a,) { a }", "print(1,)", "[1,]", "[,1]", "print(,)", "stel x = 1;;", "{ { } }", "{ ; }", ";1", "als ja { 1 };anders { 2 }", "anders { 1 }", "als ja { 1 } anders",
+        "functie f(a a) { a }", "print(1 2)", "[1 2]", "stel x = 1 stel y = 2; x + y", "1 2", "stel a = 1; stel b = 2; a b", "stel x = 0; x = = 1", "1 == == 2", "1 < 2 < 3", "1 == 2 == nee",
+        "- - 1", "! ! ja", "-!ja", "!-1", "stel a = 1; stel b = 1; a += b += 1", "stel a = 1; stel b = 5; a += 1 + b", "stel a = 1; a += 2 * 3 - 1; a", "stel a = 2; a *= a += 1",
         // things that look like syntax of other languages: openers without their closers
         "/*", "/* x", "1 /* 2", "/* */", "/**/ 1", "1 */ 2", "<!--", "#", "# x", "'a'", "'", "`a`", "\"\"\"", "\"\"\" x", "${", "@x", "\\", "1 \\\n 2",
         "0x", "0x1F", "1e", "1e5", "1_000", "1..2", "..", "1.", ".5", "1.2.3", "a..b", "::", "->", "=>", "a ? b : c", "<<", ">>", "**",
